@@ -101,9 +101,9 @@ def run(chk, replay=None):
     chk.assumptions += ["module and table memory = the heap blocks reachable from the MODULE structure (enumerated through the "
                         "private headers), compared over their usable size",
                         "a temporary modification restored before return is visible only to the concurrent runs of C12"]
-    for mod, cfg, role in (("LimbLoops", "LimbLoops_quick.cfg", "Frame at every step"),
+    for mod, cfg, role in (("LimbLoops", ("LimbLoops_quick.cfg" if quick else "LimbLoops_thorough.cfg"), "Frame at every step"),
                            ("Normalize", "Normalize_small.cfg", "SourceKept at every step"),
-                           ("Pointwise", "Pointwise_quick.cfg", "SourcesKept at every step")):
+                           ("Pointwise", ("Pointwise_quick.cfg" if quick else "Pointwise_thorough.cfg"), "SourcesKept at every step")):
         r = run_tlc(mod, cfg, workers=16, coverage=True, name="c18-" + mod, timeout=1800)
         tlc_must_pass(r, mod)
         chk.add_tlc(r, "exhaustive: " + role)
